@@ -163,6 +163,20 @@ def run(repo: Repo, rep: Report, tier: str) -> None:
             rep.check(L2 == E2, "re-encode", f"{short}.{name}.{lprop}", f"{L.show()} [{sorted(assume)}]", f"the decoder keeps every sub-item it finds, the encoder emits them all ({E.show()} bytes follow the length field) but the length field is computed as {L.show()}: a decoded item with more elements re-encodes with a wrong length", mod=ci.mod, node=pm.repo.lookup_method(ci, lprop, "getter")[1])
     rep.floor("length summaries", n_len, 23)
 
+    # ---- nothing but the codec decides that a PDU is invalid ---------------------------------------------
+    rep.rule("no-extra-rejection", "_decode_pdu raises only what the codec raises: it adds no acceptance condition of its own (PS3.8 has no such condition on a well-formed PDU)")
+    dp = repo.func("dul", "DULServiceProvider._decode_pdu")
+    extra = [x for x in walk_no_nested(dp) if isinstance(x, ast.Raise)]
+    for x in extra:
+        g = enclosing(x, (ast.If,))
+        rep.fail("no-extra-rejection", "dul.DULServiceProvider._decode_pdu", enclosing(x, (ast.stmt,)) if not isinstance(x, ast.stmt) else x, f"_decode_pdu raises on `{norm(g.test) if g is not None else 'every path'}`: a PDU that decodes and converts is turned into 'invalid PDU' (Evt19 -> A-ABORT) by a condition of the provider's own - for a limit taken from configuration (a maximum size, a count) it is wrong whenever the value announced to this peer differs from it", mod=dul, node=x)
+    if not extra:
+        rep.ok("no-extra-rejection", "dul.DULServiceProvider._decode_pdu :: no explicit raise")
+
+    # ---- a conformant UID is never refused -------------------------------------------------------------
+    from .c12 import check_ui_accepts_legal
+    rep.rule("uid-accepted", "validate_ui accepts every well-formed UID of up to 64 characters (and refuses 65): what the setters of the received PDU / command fields rely on")
+    rep.floor("validate_ui evaluations", check_ui_accepts_legal(repo, rep, "uid-accepted"), 10)
 
 def check_progress(rep, mod, fn, w: ast.While, fq):
     """every path through the loop body either leaves the loop/function or advances the cursor by
